@@ -119,7 +119,12 @@ def parse_duration(s):
 def parse_date(s):
     # return seconds-since-epoch for the UTC midnight that starts the given
     # day
-    return int(iso_utc_time_to_seconds(s + "T00:00:00"))
+    m = re.fullmatch(r"\s*(\d{4})-(\d{2})-(\d{2})\s*", s)
+    if not m:
+        raise ValueError(s, "not a date of the form YYYY-MM-DD")
+    # raises ValueError for days that do not exist (e.g. 2009-02-31)
+    datetime.date(int(m.group(1)), int(m.group(2)), int(m.group(3)))
+    return int(iso_utc_time_to_seconds(s.strip() + "T00:00:00"))
 
 def format_delta(time_1, time_2):
     if time_1 is None:
